@@ -40,6 +40,9 @@ type TCPMuxDefault struct {
 	// connsIPv4 and connsIPv6 are maps of all tcpPacketConns indexed by ufrag and local address
 	connsIPv4, connsIPv6 map[string]map[ipAddr]*tcpPacketConn
 
+	// pendingConns are accepted connections whose first frame has not been handled yet.
+	pendingConns map[net.Conn]struct{}
+
 	mu sync.Mutex
 	wg sync.WaitGroup
 }
@@ -85,6 +88,8 @@ func NewTCPMuxDefault(params TCPMuxParams) *TCPMuxDefault {
 
 		connsIPv4: map[string]map[ipAddr]*tcpPacketConn{},
 		connsIPv6: map[string]map[ipAddr]*tcpPacketConn{},
+
+		pendingConns: map[net.Conn]struct{}{},
 	}
 
 	mux.wg.Add(1)
@@ -108,9 +113,25 @@ func (m *TCPMuxDefault) start() {
 
 		m.params.Logger.Debugf("Accepted connection from: %s to %s", conn.RemoteAddr(), conn.LocalAddr())
 
+		// Close must be able to end a connection that is still waiting for its first frame.
+		m.mu.Lock()
+		if m.closed {
+			m.mu.Unlock()
+			m.closeAndLogError(conn)
+
+			continue
+		}
+		m.pendingConns[conn] = struct{}{}
+		m.mu.Unlock()
+
 		m.wg.Add(1)
 		go func() {
 			defer m.wg.Done()
+			defer func() {
+				m.mu.Lock()
+				delete(m.pendingConns, conn)
+				m.mu.Unlock()
+			}()
 			m.handleConn(conn)
 		}()
 	}
@@ -296,6 +317,14 @@ func (m *TCPMuxDefault) handleConn(conn net.Conn) { //nolint:cyclop
 	}
 	m.mu.Lock()
 
+	if m.closed {
+		// Close has already swept the connections: nothing may be created behind its back.
+		m.mu.Unlock()
+		m.closeAndLogError(conn)
+
+		return
+	}
+
 	packetConn, ok := m.getConn(ufrag, isIPv6, localAddr.IP)
 	if !ok {
 		packetConn, err = m.createConn(ufrag, isIPv6, localAddr.IP, true)
@@ -344,6 +373,10 @@ func (m *TCPMuxDefault) Close() error {
 
 	m.connsIPv4 = map[string]map[ipAddr]*tcpPacketConn{}
 	m.connsIPv6 = map[string]map[ipAddr]*tcpPacketConn{}
+
+	for conn := range m.pendingConns {
+		m.closeAndLogError(conn)
+	}
 
 	err := m.params.Listener.Close()
 
